@@ -105,7 +105,7 @@ Section EdgeMap.
   Qed.
 
   Lemma bedges_wf : edges_wf bfs bedges.
-  Proof. apply complete_edges_wf, bfs_shape. Qed.
+  Proof. apply complete_edges_wf; [apply bfs_shape|]. split; constructor. Qed.
 
   (* two surface ids x,y lying in a renumbered border face: the volume edge between their vertices *)
   Lemma volume_edge_of_side f T a1 a2 :
@@ -180,7 +180,7 @@ Section EdgeMap.
     intros b Lb.
     (* the surface edge b is a side of some surface face T *)
     pose proof (nth_In bedges [] Lb) as Hb.
-    destruct (complete_edges_origin bfs _ bfs_shape Hb) as [T [i [HT [Hi EB]]]].
+    destruct (complete_edges_origin [] bfs _ bfs_shape Hb) as [[]|[T [i [HT [Hi EB]]]]].
     destruct (Forall2_In_r _ _ _ _ bfs_F2 HT) as [f [Hf ET]]. apply bc_face_renumbers in ET.
     pose proof (proj1 (Forall_forall _ _) bfs_shape _ HT) as [LT NT].
     pose proof (rm_NoDup i T NT) as NR. pose proof (rm_length i T ltac:(lia)) as LR.
